@@ -27,6 +27,10 @@ class Defs:
         for n in walk_no_nested(node):
             if isinstance(n, ast.Assign) and len(n.targets) == 1 and isinstance(n.targets[0], ast.Name):
                 self._add(n.targets[0].id, n.value)
+            elif isinstance(n, ast.Assign) and len(n.targets) == 1 and isinstance(n.targets[0], ast.Tuple) and isinstance(n.value, ast.Tuple) and len(n.value.elts) == len(n.targets[0].elts) \
+                    and all(isinstance(t, ast.Name) for t in n.targets[0].elts):
+                for t, v in zip(n.targets[0].elts, n.value.elts):  # a, b = x, y
+                    self._add(t.id, v)
             elif isinstance(n, ast.AnnAssign) and isinstance(n.target, ast.Name) and n.value is not None:
                 self._add(n.target.id, n.value)
             elif isinstance(n, ast.NamedExpr) and isinstance(n.target, ast.Name):
